@@ -5,7 +5,7 @@ from .. import jsongen
 
 THEOREMS = ['nextCodePoint_total', 'jsonEscape_total', 'jsonUnescape_total', 'unescape_bounds',
             'readHex_total', 'parseEvent_total', 'parseFilter_total', 'tagsFromJson_total',
-            'burn_depth_limited', 'parseEvent_wellformed', 'tagsFromJson_wellformed', 'parseFilter_wellformed']
+            'burn_depth_limited', 'parseEvent_wellformed', 'tagsFromJson_wellformed', 'parseFilter_wellformed', 'unescape_hex_table_from_source', 'parser_bounds_from_source']
 
 SAMPLE_EVENT = b'{"id":"a9663055164ab8b30d9524656370c4bf93393bb051b7edf4556f40c5298dc0c7","pubkey":"ee11a5dff40c19a555f41fe42b48f00e618c91225622ae37b6c2bb67b76c4e49","created_at":1681778790,"kind":1,"sig":"4dfea1a6f73141d5691e43afc3234dbe73016db0fb207cf247e0127cc2591ee6b4be5b462272030a9bde75882aae810f359682b1b6ce6cbb97201141c576db42","content":"He got snowed in","tags":[["client","gossip"],["p","e2ccf7cf20403f3f2a4a55b328f0de3be38558a7d5f33632fdaaefc726c1c8eb"],["e","2c86abcc98f7fd8a6750aab8df6c1863903f107206cc2d72e8afeb6c38357aed","wss://nostr-pub.wellorder.net/","root"]]}'
 
